@@ -289,6 +289,30 @@ theorem C27_decode_prefix_need_more (m : FrontendMsg) (rest : Bytes) (hw : wfMsg
       rw [← hb] at hl
       omega
 
+/-! ### strings are validated as UTF-8 -/
+
+/-- `read_cstring` rejects every NUL-terminated byte string that is not valid UTF-8 (it never
+    re-interprets the bytes in another encoding) -/
+theorem readCString_invalid_utf8 (s r : Bytes) (hn : nulFree s = true) (hu : utf8Valid s = false) :
+    readCString (s ++ 0 :: r) = .error (.err .invalidString) := by
+  rw [readCString_eq, position0_append r hn]
+  have ht : (s ++ 0 :: r).take s.length = s := List.take_left' rfl
+  simp only [ht, hu, Bool.false_eq_true, if_false]
+
+/-- a Query or Password frame whose string is not valid UTF-8 is a protocol error (exactly the
+    frame is consumed, what follows is untouched); with `C27_decode_roundtrip` (every valid string
+    comes back byte for byte) this pins the decoder's treatment of every byte string -/
+theorem C27_decode_rejects_invalid_utf8 (ty : UInt8) (hty : ty = 0x51 ∨ ty = 0x70) (s rest : Bytes)
+    (hn : nulFree s = true) (hu : utf8Valid s = false) (hl : 4 + (s.length + 1) < 2147483648) :
+    decode (ty :: (be32 (4 + (s.length + 1)) ++ cstr s) ++ rest) = .error .invalidString rest := by
+  rw [decode_string_frame ty s rest hl]
+  have hr : readCString (s ++ [0]) = .error (.err .invalidString) := readCString_invalid_utf8 s [] hn hu
+  rcases hty with rfl | rfl <;> simp [decodeBody, hr, Stop.toOutcome]
+
+/-- non-vacuity: `C3 28`, `FF`, a lone Latin-1 `E9` are NUL-free and not UTF-8; "é" (C3 A9) is -/
+example : nulFree [0xc3, 0x28] = true ∧ utf8Valid [0xc3, 0x28] = false ∧ utf8Valid [0xff] = false ∧
+    utf8Valid [0xe9] = false ∧ utf8Valid [0xc3, 0xa9] = true := by decide
+
 /-! ### the same for startup-phase packets (StartupMessage, SSLRequest, CancelRequest, …) -/
 
 /-- `decode_startup` asks for more exactly when fewer bytes are buffered than the packet declares
